@@ -647,7 +647,7 @@ func runC13(c *harness.Case) {
 		} else {
 			c.Stat("streams_refused_outright_for_a_cancelled_context", 1)
 		}
-		if c.Index%10 == 7 {
+		if (c.Tier == "quick" && c.Index%10 == 7) || c.Index%50 == 7 {
 			recs, derr := harness.Dump(eng.KV, encS, encE)
 			if derr == nil && len(recs) > 2 {
 				N := 1 + r.Intn(len(recs))
